@@ -241,6 +241,10 @@ class Application(object):
         """
         if index is None:
             index = len(self.routes)
+        elif index < 0:
+            # same meaning as for list.insert(), resolved up front: an
+            # entry with several routes is inserted contiguously
+            index = max(0, len(self.routes) + index)
         rf = cast_to_route_factory(entry)
 
         kwargs.setdefault('rebind_render', getattr(rf, 'rebind_render', True))
